@@ -65,6 +65,9 @@ type Client struct {
 
 	expiresAt int64
 
+	// closed by readPump when the connection has ended
+	finished chan struct{}
+
 	hub *Hub
 
 	// The websocket connection.
@@ -240,6 +243,9 @@ func (c *Client) readPump() {
 	defer func() {
 		c.hub.unregister <- c
 		c.conn.Close()
+		if c.finished != nil {
+			close(c.finished) // lets the expiry/deny watcher go now, rather than at token expiry
+		}
 		log.Trace("readpump closed")
 	}()
 
@@ -702,6 +708,7 @@ func serveWs(closed <-chan struct{}, w http.ResponseWriter, r *http.Request, con
 			conn:       conn,
 			denied:     denied,
 			expiresAt:  (*token.ExpiresAt).Unix(),
+			finished:   make(chan struct{}),
 			send:       make(chan message, int(config.BufferSize)),
 			topic:      topic,
 			stats:      stats,
@@ -741,6 +748,8 @@ func serveWs(closed <-chan struct{}, w http.ResponseWriter, r *http.Request, con
 				log.WithFields(cf).WithField("reason", "token expired").Info("connection closed")
 			case <-denied:
 				log.WithFields(cf).WithField("reason", "token denied").Info("connection closed")
+			case <-client.finished:
+				// connection already ended
 			}
 
 			close(cancelled)
